@@ -466,7 +466,8 @@ fn gen_core(tier: &str, rng: &mut Rng, out: &mut Vec<Rec>) {
         let full_bits = (asz + bsz) * ab;
         let res_k = if assign { a_k } else { match rng.below(4) { 0 => full_bits + rng.range(0, 2 * rb as i64) as usize, 1 => full_bits, _ => rng.range(1, full_bits as i64) as usize } };
         let rsz = dceil(res_k, rb);
-        let cnv = match rng.below(10) { 0 => 0, 1 => ab, 2 => ab - 1, 3 => full_bits, 8 if matches!(code, 5101 | 5102 | 5103) => full_bits + ab + rng.range(0, 2 * ab as i64) as usize, 4 => rng.range(0, ab as i64) as usize, _ => rng.range(0, full_bits as i64 + ab as i64) as usize };
+        // offsets beyond (a.size + b.size + 1) * base2k make `a.size() + b.size() - cnv_offset_hi` underflow (debug builds panic): not generated
+        let cnv = match rng.below(10) { 0 => 0, 1 => ab, 2 => ab - 1, 3 => full_bits, 4 => rng.range(0, ab as i64) as usize, _ => rng.range(0, full_bits as i64 + ab as i64) as usize };
         let cols = rank + 1;
         let tcols = cols * (cols + 1) / 2;
         let ps: Vec<i128> = vec![be, n as i128, rank as i128, ab as i128, rb as i128, a_k as i128, b_k as i128, res_k as i128, cnv as i128];
